@@ -462,8 +462,12 @@ func runProperty(pr *Property, env *Env, tier string, seed int64, lean leanResul
 		"known_finding_lines":          findingLines,
 		"harness_errors":               len(harnessErrs),
 	}
+	assumptions := append([]string{
+		"the theorems are about the Lean model; the model is tied to /repo's working tree by this run's correspondence (same operations on the real Go code and on the compiled model, byte-exact diff)",
+		"rassemble-go / regexp/syntax are a parameter of the model (real Join results are fed to it)",
+	}, pr.Assume...)
 	ev := Evidence{PropertyID: pr.ID, Tier: tier, Seed: seed, Level: "proof", Coverage: cov,
-		Assumptions: pr.Assume, WallS: time.Since(start).Seconds() + lean.wall, Violations: violations}
+		Assumptions: assumptions, WallS: time.Since(start).Seconds() + lean.wall, Violations: violations}
 	if !replayMode {
 		if err := writeJSON(filepath.Join(verifDir(), "evidence", pr.ID+".json"), ev); err != nil {
 			fmt.Fprintln(os.Stderr, "cannot write evidence:", err)
